@@ -430,12 +430,11 @@ class TaggedUnionConverter(UnionConverter):
         tag: t.Any
 
         if self.external is False:
-            try:
-                # don't give 'tag' to variants (any mapping can be data, not only those with a `copy()`)
-                val = dict(val)
-                tag = val.pop(self.tag)
-            except KeyError:
+            if self.tag not in val:
                 return WrongTypeError(f"mapping with key '{self.tag}' => {self.tag_expected()}", val)
+            # don't give 'tag' to variants (any mapping can be data, not only those with a `copy()`)
+            val = dict(val)
+            tag = val.pop(self.tag)
         elif self.external is True:
             if len(val) != 1:
                 return WrongTypeError(self.expected(), val)
